@@ -33,11 +33,12 @@ prop('C02',
      verus=['datetime'],
      twin=['datetime'],
      uncovered=['From<SystemTime>/Into<SystemTime> (std type opaque to both engines; bounded twin only)',
-                'TimeZone::timestamp_opt/_millis_opt/_micros/_nanos (trait-default one-line delegations to from_timestamp*)',
-                'deprecated NaiveDateTime::from_timestamp*/timestamp* (delegate to the DateTime<Utc> functions)'],
+                'deprecated panicking forms NaiveDateTime::from_timestamp, TimeZone::timestamp / timestamp_millis (unwrap/expect wrappers)'],
      text='Verus proves DateTime::<Utc>::from_timestamp/_millis/_micros/_nanos and timestamp/_millis/_micros/_nanos_opt/_subsec_* on the real text '
           'against day_number - 719163 (floor semantics for sub-second units, construction fails exactly outside the date range or for an invalid '
-          'nanosecond field, nanosecond accessor None exactly when the count does not fit i64), over the proved contracts of the date, time and TimeDelta units.')
+          'nanosecond field, nanosecond accessor None exactly when the count does not fit i64), over the proved contracts of the date, time and TimeDelta units. Also proved: the zone-generic '
+          'provided methods TimeZone::timestamp_opt / timestamp_millis_opt / timestamp_micros / timestamp_nanos on their default bodies (generic in the zone; a scan checks no impl overrides them), '
+          'and the NaiveDateTime forms from_timestamp_opt/_millis/_micros/_nanos (two of which redo the Euclidean split themselves) and timestamp*.')
 
 prop('C03',
      title='Adding and subtracting elapsed time is exact or refused, never wrapped',
@@ -64,24 +65,26 @@ prop('C07',
 prop('C04',
      title='Zone-aware date-times: one instant, many wall clocks',
      verus=['datetime', 'time'],
-     kani=['vk_fixed_offset_ctor', 'vk_dt_eq_ord_hash', 'vk_dt_from_utc_conversions', 'vk_dt_from_local', 'vk_dt_wallclock_date_getters', 'vk_dt_wallclock_time_getters', 'vk_dt_map_local_any_zone'],
+     kani=['vk_fixed_offset_ctor', 'vk_dt_eq_ord_hash', 'vk_dt_from_utc_conversions', 'vk_dt_from_local', 'vk_dt_wallclock_date_getters', 'vk_dt_wallclock_time_getters', 'vk_dt_map_local_any_zone',
+           'vk_dt_with_year_any_zone', 'vk_dt_with_month_day_any_zone', 'vk_dt_with_day0_ordinal_any_zone', 'vk_dt_with_clock_any_zone', 'vk_dt_months_any_zone', 'vk_dt_days_any_zone'],
      kani_thorough=['vk_dt_wallclock_week_getters', 'vk_dt_with_time', 'vk_dt_with_time_fields', 'vk_dt_months', 'vk_dt_with_year', 'vk_dt_with_month', 'vk_dt_with_day', 'vk_dt_with_ordinal',
-                    'vk_dt_with_year_any_zone', 'vk_dt_with_month_day_any_zone', 'vk_dt_with_day0_ordinal_any_zone', 'vk_dt_with_clock_any_zone', 'vk_dt_months_any_zone', 'vk_dt_days_any_zone', 'vk_dt_with_time_any_zone'],
+                    'vk_dt_with_time_any_zone'],
      kani_timeout=3000,
      twin=['zoned', 'datetime'],
-     uncovered=['DateTime<Tz>::with_* / checked_add_days / checked_add_months wrappers: proved for every zone only in the thorough tier (quick proves their engine map_local for every zone and closure)',
+     uncovered=['DateTime<Tz>::with_time for every zone: thorough tier only',
                 'formatting of DateTime (core::fmt)', 'time zones other than Utc / FixedOffset (Local is C05)', 'DateTime::naive_local/date_naive (documented to panic out of range)'],
      text='Verus proves the offset shifts on the real text: NaiveTime::overflowing_add/sub_offset (sub-second field kept, day carry in {-1,0,1}), '
           'NaiveDateTime::checked_add/sub_offset (Some exactly when the other reading stays in range, wall = utc +/- offset exactly) and overflowing_add/sub_offset '
           '(always exact thanks to the one-day sentinels). Kani proves for every UTC date-time x every offset in (-24h, 24h): FixedOffset::east_opt/west_opt, '
           'from_utc_datetime/from_local_datetime round trips and their failure condition, Eq/Ord/Hash depend only on the instant, with_timezone/fixed_offset/to_utc '
           'keep the instant, and all Datelike/Timelike getters read the wall clock (also one day beyond the nominal range). map_local - the engine of every with_* on DateTime<Tz> - is proved for EVERY zone and '
-          'EVERY closure: the harness instantiates it with a TimeZone whose answers are arbitrary (None / Single / Ambiguous with any offsets) and a closure with an arbitrary result; thorough adds the '
-          'wrappers themselves (with_*, checked_add/sub_months, checked_add/sub_days, with_time) for every zone, the NaiveDateTime operation taken through its contract.')
+          'EVERY closure: the harness instantiates it with a TimeZone whose answers are arbitrary (None / Single / Ambiguous with any offsets) and a closure with an arbitrary result; the wrappers themselves '
+          '(with_*, checked_add/sub_months, checked_add/sub_days) are proved for every zone with the NaiveDateTime operation and the two offset shifts taken through their contracts; thorough adds with_time.')
 
 prop('C05',
      title='Local time follows the zone data: offsets, gaps and folds',
      verus=['tz', 'tzrule'],
+     kani=['vk_tzstring_offset', 'vk_tzstring_rule_time', 'vk_tzstring_rule_time_extended'],
      bounded=['vk_tz_find_type_bounded', 'vk_tz_from_local_classify_bounded', 'vk_tz_validate_bounded'],
      twin=['tz'],
      uncovered=['POSIX TZ rule lookups: only safety, result shape and earliest-first ordering are proved; that the DST interval tests pick the prescribed type for every instant is covered by the tz twin only',
@@ -115,12 +118,12 @@ prop('C08',
      verus=['week', 'time'],
      kani=['vk_date_with_month', 'vk_date_with_day', 'vk_date_with_ordinal', 'vk_date_with_year', 'vk_date_add_months', 'vk_date_sub_months',
            'vk_date_weekday_of_month', 'vk_date_years_since', 'vk_date_quarter_ce_dim', 'vk_month_num_days',
-           'vk_ndt_accessors', 'vk_ndt_with_date_fields', 'vk_ndt_with_time_fields', 'vk_ndt_months', 'vk_mdf_from_ol_with', 'vk_dt_map_local_any_zone'],
-     kani_thorough=['vk_dt_with_year_any_zone', 'vk_dt_with_month_day_any_zone', 'vk_dt_with_day0_ordinal_any_zone', 'vk_dt_with_clock_any_zone', 'vk_dt_months_any_zone', 'vk_dt_days_any_zone', 'vk_dt_with_time_any_zone'],
+           'vk_ndt_accessors', 'vk_ndt_with_date_fields', 'vk_ndt_with_time_fields', 'vk_ndt_months', 'vk_mdf_from_ol_with', 'vk_dt_map_local_any_zone',
+           'vk_dt_with_year_any_zone', 'vk_dt_with_month_day_any_zone', 'vk_dt_with_day0_ordinal_any_zone', 'vk_dt_with_clock_any_zone', 'vk_dt_months_any_zone', 'vk_dt_days_any_zone'],
+     kani_thorough=['vk_dt_with_time_any_zone'],
      kani_timeout=3000,
      twin=['week', 'zoned'],
-     uncovered=['DateTime<Tz>::with_* / checked_add_months / checked_sub_months wrappers: for every zone in the thorough tier only (quick: map_local for every zone and closure)',
-                'NaiveWeek::checked_days / days (RangeInclusive construction from the two proved ends)', 'NaiveWeek::first_day/last_day (expect wrappers)',
+     uncovered=[                'NaiveWeek::checked_days / days (RangeInclusive construction from the two proved ends)',
                 'DateTime::years_since'],
      text='Kani proves, for every valid date and every u32/i32 replacement value, with_year/month/month0/day/day0/ordinal/ordinal0 (exactly the named field changes, '
           'None exactly when no such date exists), checked_add/sub_months (year-month moves by N, day clamped, fails only out of range, Months(0) identity), '
@@ -151,7 +154,7 @@ prop('C12',
 prop('C14',
      title='Field resolution never returns a value that contradicts a supplied field',
      kani=['vk_parsed_set_year', 'vk_parsed_set_year_div_100', 'vk_parsed_set_year_mod_100', 'vk_parsed_set_isoyear', 'vk_parsed_set_isoyear_div_100', 'vk_parsed_set_isoyear_mod_100', 'vk_parsed_set_quarter', 'vk_parsed_set_month', 'vk_parsed_set_week_from_sun', 'vk_parsed_set_week_from_mon', 'vk_parsed_set_isoweek', 'vk_parsed_set_ordinal', 'vk_parsed_set_day', 'vk_parsed_set_minute', 'vk_parsed_set_second', 'vk_parsed_set_nanosecond', 'vk_parsed_set_timestamp', 'vk_parsed_set_offset', 'vk_parsed_set_clock', 'vk_parsed_date_agrees', 'vk_parsed_complete_ymd', 'vk_parsed_complete_yo',
-           'vk_parsed_complete_wsun', 'vk_parsed_complete_wmon', 'vk_parsed_complete_iso', 'vk_parsed_year_groups', 'vk_parsed_insufficient', 'vk_parsed_time', 'vk_parsed_offset', 'vk_parsed_ndt_with_offset', 'vk_parsed_to_datetime', 'vk_parsed_to_datetime_with_timezone', 'vk_parsed_recorder_sound'],
+           'vk_parsed_complete_wsun', 'vk_parsed_complete_wmon', 'vk_parsed_complete_iso', 'vk_parsed_year_groups', 'vk_parsed_insufficient', 'vk_parsed_time', 'vk_parsed_offset', 'vk_parsed_ndt_with_offset_direct', 'vk_parsed_ndt_with_offset_from_timestamp', 'vk_parsed_to_datetime', 'vk_parsed_to_datetime_with_timezone', 'vk_parsed_recorder_sound'],
      kani_timeout=2400,
      twin=['parsed'],
      uncovered=[                'date fields other than year/month/day/ordinal are not re-asserted at the date-time level (they are the callee contract of to_naive_date)'],
@@ -159,7 +162,7 @@ prop('C14',
           'documented sufficient combination with every other derived field optionally present; year-group rules (century + two-digit year, 1970-2069 pivot); insufficient sets are NOT_ENOUGH; '
           'to_naive_time with all clock fields symbolic (second 60, missing seconds, nanosecond without second, exact error kinds); to_fixed_offset; every setter for every i64 '
           '(accepted exactly in range, stored exactly, second set accepted exactly when equal). Parsed::to_naive_datetime_with_offset and to_datetime are proved modularly: '
-          'their callees (to_naive_date, to_naive_time, DateTime::from_timestamp, NaiveDateTime::checked_sub_signed; resp. to_naive_datetime_with_offset) are replaced by stubs that return any '
+          'their callees (to_naive_date, to_naive_time, DateTime::from_timestamp, DateTime::timestamp, NaiveDateTime::checked_sub_signed / checked_sub_offset; resp. to_naive_datetime_with_offset) are replaced by stubs that return any '
           'result their proved contracts allow, and the harness checks what the function itself adds (which result is returned, timestamp cross-check, error-kind order, leap-second step, '
           'offset choice, no panic for every input). Parsed::to_datetime_with_timezone is proved for EVERY zone: the harness instantiates it with a TimeZone whose answers are arbitrary '
           '(any offset at an instant; None / Single / Ambiguous with any offsets for a local value) and checks the candidate selection against the offset field and the timestamp.')
@@ -188,14 +191,15 @@ prop('C15',
 prop('C16',
      title='The TZif and TZ-rule readers accept well-formed data and survive everything else',
      verus=['tz', 'tzrule'],
-     bounded=['vk_tz_validate_bounded', 'vk_tz_find_type_bounded', 'vk_tz_from_local_classify_bounded'],
+     kani=['vk_tzif_header', 'vk_tzif_header_truncated', 'vk_tzif_read_be', 'vk_tzstring_offset', 'vk_tzstring_rule_time', 'vk_tzstring_rule_time_extended'],
+     bounded=['vk_tz_validate_bounded', 'vk_tz_find_type_bounded', 'vk_tz_from_local_classify_bounded', 'vk_tzif_state_layout_bounded'],
      twin=['tz'],
-     uncovered=['the TZif byte parser and the TZ-string grammar (iterator adapters, Vec, str::from_utf8): CBMC did not finish on 52-byte / 12-byte symbolic inputs in 20 min, so only the native sweep covers them',
+     uncovered=['the record loops of the TZif parser (transitions, local time types, leap seconds, indicator pairs, footer) and the TZ-string grammar (iterator adapters, Vec, str::from_utf8): CBMC did not finish on 52-byte / 12-byte symbolic inputs in 20 min, so only the native sweep covers them',
                 'acceptance of every file a conforming writer emits (a statement over generated files, not a contract); only the 10 synthetic files + 15 rules of the twin',
                 'that the POSIX rule lookups select the prescribed type (only safety / shape / ordering proved)', 'leap-second records'],
      text='Proved (Verus, unbounded, real text): validate() returning Ok implies well-formedness; LocalTimeType::new / with_offset accept only offsets inside (-24h, 24h); TimeZoneName::new accepts exactly 3..7 '
           'characters from [0-9A-Za-z+-] and stores them; RuleDay constructors and AlternateTime::new accept exactly the documented ranges; on a validated zone both lookups (table and POSIX rule, incl. from_timespec) never overflow or index '
-          'out of bounds for any file-supplied 64-bit transition time, every instant and every wall-clock time, and every candidate they return is sound. Bounded Kani stand-ins: validate() accepts exactly well-formed tables; instant lookup. Bounded native stand-in (tz twin, through the public '
+          'out of bounds for any file-supplied 64-bit transition time, every instant and every wall-clock time, and every candidate they return is sound. Kani (complete, loop-free): Header::new over every 44-byte header (accepted exactly with the magic, a known version and consistent counts; the six counts are the big-endian fields; 44 bytes consumed), every truncated header refused, read_be_i32/i64; parse_offset / parse_rule_time / parse_rule_time_extended for every outcome of the digit scanner (sign on the whole of h:m:s, exact ranges, no overflow); bounded: State::new lays out the seven fields with exactly the announced lengths and refuses a block shorter than announced (blocks up to 52 bytes). Bounded Kani stand-ins: validate() accepts exactly well-formed tables; instant lookup. Bounded native stand-in (tz twin, through the public '
           'TZ=:/file and TZ=rule route on fresh threads): files written by an independent TZif writer and POSIX rules yield exactly the modelled offsets, gaps and folds; ~700 structured '
           'mutations (truncations, header-count and 64-bit-time extremes, random bytes, mutated TZ strings) never panic.')
 
